@@ -185,12 +185,12 @@ class Containers:
 
 
 def run(ctx: Ctx, rep: Report) -> None:
-    rep.rule("C02-R0", "the bulk walk delegates to the shared walk loop with its own fetcher and yields every item", floor=2)
-    rep.rule("C02-R1", "every fetcher returns a faithful (order and multiplicity preserving) prefix of the response's bindings", floor=2)
+    rep.rule("C02-R0", "the bulk walk delegates to the shared walk loop with its own fetcher and yields every item", floor=1)
+    rep.rule("C02-R1", "every fetcher returns a faithful (order and multiplicity preserving) prefix of the response's bindings", floor=1)
     rep.rule("C02-R2", "GETBULK responses are refused iff they hold more than N + M*R bindings (RFC 3416)", floor=30)
-    rep.rule("C02-R3", "non-repeaters / max-repetitions sent agree with the OID lists, the response split and the caller's bulk size", floor=4)
+    rep.rule("C02-R3", "non-repeaters / max-repetitions sent agree with the OID lists, the response split and the caller's bulk size", floor=3)
     rep.rule("C02-R4", "the endOfMibView cut-off is a suffix cut", floor=1)
-    rep.rule("C02-R5", "the walk loop shared with the GETNEXT walk satisfies C01 R1-R8 (filter, delivery, regrouping, sortedness, continuation, markers, order)", floor=30)
+    rep.rule("C02-R5", "the walk loop shared with the GETNEXT walk satisfies C01 R1-R8 (filter, delivery, regrouping, sortedness, continuation, markers, order)", floor=25)
     rep.assumptions += [
         "C01's rules hold for the shared loop (checked by the C01 command; the bulk fetcher is included in its fetcher set)",
         "conformant agents may repeat an OID inside one GETBULK response when adjacent subtrees run into each other",
